@@ -25,6 +25,8 @@ Reason(ev) ==
   ELSE
     IF ev.res # "ok" THEN "writer-" \o ev.res
     ELSE IF ev.size # 1024 + 128 * Len(ev.g.cues) THEN "file-size-is-not-1024+128n"
+    ELSE IF ev.mode = "full" /\ ~(CountryKept(RefRead(NormD(ev.d), FALSE), WriteTruth(ev)) /\ CountryKept(NormP(ev.post), WriteTruth(ev)))
+         THEN "written-file-names-a-country-the-list-does-not"
     ELSE IF SameWritten(RefRead(NormD(ev.d), FALSE), WriteTruth(ev)) /\ SameWritten(NormP(ev.post), WriteTruth(ev))
          THEN (IF ev.tc2 THEN "ok" ELSE "read-then-write-changes-a-timecode")
     \* known finding stl-dollar-as-currency-sign: '$' (U+0024) is written as code 24h, which the Latin table
